@@ -78,7 +78,10 @@ def check_randint_sources(h: Harness):
     # genotype-backed sources: all gene lists of length 1..L over a small alphabet, all cursors
     alphabet = [-3, -1, 0, 1, 2, 7, sys.maxsize]
     L = 3 if h.thorough else 2
-    bounds = [(0, 0), (0, 1), (-2, 2), (3, 3), (1, sys.maxsize), (-5, -1), (0, 10)]
+    # (ranges WIDER than the platform integer among them, and genes outside [0, sys.maxsize]: a gene list is whatever it is -- injected,
+    # read from a file, made by another tool)
+    alphabet = alphabet + [2**63 + 11]
+    bounds = [(0, 0), (0, 1), (-2, 2), (3, 3), (1, sys.maxsize), (-5, -1), (0, 10), (0, sys.maxsize), (-sys.maxsize, sys.maxsize), (-2, sys.maxsize)]
     for n in range(1, L + 1):
         for dna in itertools.product(alphabet, repeat=n):
             for (lo, hi) in bounds:
